@@ -172,6 +172,18 @@ ORACLES = {"direct_split": direct_split, "direct_tss": direct_tss, "direct_trunc
 
 def search(ctx):
     rng = ctx.rng
+    # start from the cases on which model and implementation diverged: the same spectrum on a real (un-injected) tensor
+    for mm in [m for m in ctx.mismatches if isinstance(m.get("case"), dict) and "s" in m["case"]][:40]:
+        c = mm["case"]
+        if "D0" not in c:
+            continue
+        for dyn in (c["dyn"], not c["dyn"]):
+            args = dict(seed=1, d0=c["d"], d1=c["d"], D0=c["D0"], D2=c["D2"], s=c["s"], thr=c["thr"], minb=c["minb"],
+                        maxb=c["maxb"], mode=c["mode"], dyn=dyn)
+            why = direct_split(args)
+            ctx.case(nontrivial_key=("from-mismatch", tuple(c["s"]), c["thr"], c["maxb"], dyn))
+            if why:
+                ctx.violation("split-raises" if "raised" in why else "split-direct", why, {"oracle": "direct_split", "args": args})
     n = ctx.scale(250, 5000)
     for i in range(n):
         d0, d1 = (int(x) for x in rng.choice([2, 3], size=2))
@@ -181,6 +193,9 @@ def search(ctx):
         s = ranksel.spectrum(rng, k, kind)
         mode = "discarded_weight" if i % 2 == 0 else "relative"
         thr = float(10 ** rng.uniform(-10, 0)) if rng.random() < 0.8 else 0.0
+        if i % 5 == 0 and k >= 3:  # small tail: each tail value alone fits under the threshold, two of them do not
+            thr = float(10 ** rng.uniform(-8, -2))
+            s = [1.0] + [float(np.sqrt(0.6 * thr))] * (k - 1)
         args = dict(seed=int(rng.integers(0, 2**31)), d0=d0, d1=d1, D0=D0, D2=D2, s=s, thr=thr,
                     minb=int(rng.choice([1, 2, 2, 3, 6, 12])), maxb=int(rng.choice([1, 2, 3, 4, 6, 64])),
                     mode=mode, dyn=bool(rng.random() < 0.5))
